@@ -87,8 +87,8 @@ Proof.
   unfold agg_src. destruct op; try apply H.
   destruct (jpr_parse_aggregation1 s w g) as [J [Un D]].
   destruct (w || negb (String.eqb (str_of_expr p) metric_name)).
-  - eapply jpr_trans; [apply jpr_exclude_metric_name|]. repeat split; assumption.
-  - repeat split; assumption.
+  - eapply jpr_trans; [apply jpr_exclude_metric_name|]. destruct (lit_of p); repeat split; assumption.
+  - destruct (lit_of p); repeat split; assumption.
 Qed.
 
 Lemma jpr_fold_absent names : forall s,
@@ -102,6 +102,7 @@ Proof.
     try (repeat split; left; reflexivity).
   - eapply jpr_trans; [apply jpr_fold_absent|]. repeat split. right. reflexivity.
   - destruct args; repeat split; left; reflexivity.
+  - destruct (lit_of (nth_error args 1)); repeat split; left; reflexivity.
   - eapply jpr_trans; [apply jpr_fold; intros s x; destruct (s_known x); repeat split; left; reflexivity|].
     repeat split. left. reflexivity.
 Qed.
